@@ -184,6 +184,26 @@ def gen_cases(ck):
                     cases.append({"script": ev, "hyp": [0, 1, 2] + ([3] if meanwhile in ("connect", "all") else []),
                                   "tag": "suspended_handle_or_write", "spec_only": True,
                                   "info": {"k": k, "what": what, "meanwhile": meanwhile}})
+    # (n) MANY simultaneously connected clients: 33, 40, 64, 100 -- idle ones plus one busy one placed last /
+    #     first / in the middle; all busy; everybody answered, in order, and the oneway calls handled
+    for n in (33, 40, 64, 100):
+        for shape in ("last_busy", "first_busy", "middle_busy", "all_busy", "late_half"):
+            if quick and n in (40, 64) and shape in ("first_busy", "middle_busy"):
+                continue
+            tags = sg.Tags()
+            busy = {"last_busy": [n - 1], "first_busy": [0], "middle_busy": [n // 2, 32, 33 % n],
+                    "all_busy": list(range(n)), "late_half": list(range(n // 2, n))}[shape]
+            busy = sorted(set(busy))
+            ev = [["n", c] for c in range(n)] + [["p"]]
+            rounds = 2 if shape in ("all_busy", "late_half") else 3
+            for rnd in range(rounds):
+                for c in busy:
+                    fr = [sg.call(rng.choice(["Echo", "Count", "Fail"]), c, tags.next(), v=c, oneway=(rnd == 1 and c % 2 == 0)),
+                          sg.call("Count", c, tags.next())]
+                    ev.append(["a", c, sg.wire(fr).hex()])
+                ev.append(["p"])
+            ev.append(["p"])
+            add(ev, busy, "many_connections", {"connections": n, "shape": shape, "busy": len(busy)})
     # (w) one connection's writes fail (at every position) while the others have calls pending / pipelined:
     #     the others are answered as if nothing had happened
     for k in range(0, 4):
@@ -197,7 +217,7 @@ def gen_cases(ck):
                                   s=sg.nasty(rng)) for _ in range(4 if cid == bad else rng.randrange(2, 5))]
                     seq = [["a", cid, sg.wire(fr).hex()]] if variant % 2 == 0 else \
                         [["a", cid, ch.hex()] for ch in sg.cut(sg.wire(fr), [rng.randrange(1, len(sg.wire(fr)))])]
-                    seqs.append(([["fw", cid, k]] if cid == bad else []) + seq)
+                    seqs.append(([sg.fw(cid, k, sg.IO_KINDS[(k * 3 + nother + variant) % len(sg.IO_KINDS)])] if cid == bad else []) + seq)
                 m = [["n", c] for c in range(nother + 1)] + sg.random_merge(rng, seqs)
                 mask = 0 if variant % 2 == 0 else rng.getrandbits(len(m))
                 add(sg.with_polls(m, mask) + [["p"]], [c for c in range(nother + 1) if c != bad],
